@@ -36,6 +36,8 @@ func (f *FuncInfo) Name() string {
 
 // World is everything the rules look at: the type-checked syntax of the six modules.
 type World struct {
+	palias  map[types.Object]*types.Var // map-typed parameters that denote a struct field's table (see paramAliases)
+	noAlias bool
 	Root  string
 	Fset  *token.FileSet
 	Pkgs  []*packages.Package // the repository's own packages, all modules
@@ -377,6 +379,17 @@ func callsIfaceOf(fi *FuncInfo, iface string) bool {
 	return false
 }
 
+// hasParamOf: one of the function's parameters has the named type (or a pointer to it).
+func hasParamOf(fi *FuncInfo, pkgPath, name string) bool {
+	ps := fi.Obj.Type().(*types.Signature).Params()
+	for i := 0; i < ps.Len(); i++ {
+		if isNamedType(ps.At(i).Type(), pkgPath, name) {
+			return true
+		}
+	}
+	return false
+}
+
 func resultsAre(fi *FuncInfo, check func(*types.Tuple) bool) bool {
 	return check(fi.Obj.Type().(*types.Signature).Results())
 }
@@ -431,10 +444,11 @@ var roleFallbacks = map[string]func(w *World, fi *FuncInfo) bool{
 		return recvIs(fi, "Analyzer") && hasLiteralOf(w, fi, modPath+"/internal/reflection", "Dependency", 0)
 	},
 	"(*ConstructorInvoker).resolveParameter": func(w *World, fi *FuncInfo) bool {
-		return recvIs(fi, "ConstructorInvoker") && callsIfaceOf(fi, "DependencyResolver")
+		// a method of the invoker, or a plain function taking the parameter record
+		return (recvIs(fi, "ConstructorInvoker") || (fi.Decl.Recv == nil && hasParamOf(fi, modPath+"/internal/reflection", "ParameterInfo"))) && callsIfaceOf(fi, "DependencyResolver")
 	},
 	"(*ParamObjectBuilder).resolveFieldDependency": func(w *World, fi *FuncInfo) bool {
-		return recvIs(fi, "ParamObjectBuilder") && callsIfaceOf(fi, "DependencyResolver")
+		return (recvIs(fi, "ParamObjectBuilder") || (fi.Decl.Recv == nil && hasParamOf(fi, "reflect", "StructField"))) && callsIfaceOf(fi, "DependencyResolver")
 	},
 	"(*ConstructorInvoker).buildArguments": func(w *World, fi *FuncInfo) bool {
 		return recvIs(fi, "ConstructorInvoker") && resultsAre(fi, func(t *types.Tuple) bool {
@@ -448,14 +462,7 @@ var roleFallbacks = map[string]func(w *World, fi *FuncInfo) bool{
 }
 
 func hasNumFieldLoop(fi *FuncInfo) bool {
-	found := false
-	ast.Inspect(fi.Decl.Body, func(n ast.Node) bool {
-		if fs, ok := n.(*ast.ForStmt); ok && fs.Cond != nil && strings.Contains(exprStr(fs.Cond), "NumField") {
-			found = true
-		}
-		return !found
-	})
-	return found
+	return structFieldLoop(fi.Pkg.TypesInfo, fi.Decl.Body) != nil
 }
 
 func callsReflectCall(fi *FuncInfo) bool {
